@@ -2,15 +2,44 @@ package sharding
 
 import (
 	"fmt"
+	"sort"
+	"strings"
 	"testing"
 
+	"github.com/ElrondNetwork/elrond-go/core"
+	"github.com/ElrondNetwork/elrond-go/marshal"
 	kit "github.com/ElrondNetwork/elrond-go/verifkit"
 	"pgregory.net/rapid"
 )
 
 // C13: Validator reshuffling is deterministic (independent of map iteration order and of how the maps are built).
 
-const verifC13Repeats = 12
+const verifC13Repeats = 10
+
+// verifC13At is the input with another epoch and randomness (same validators, same shuffler arguments).
+func verifC13At(in *verifSHAInput, epoch uint32, rand []byte) *verifSHAInput {
+	cp := *in
+	cp.epoch = epoch
+	cp.rand = rand
+	return &cp
+}
+
+// verifC13StepEpoch draws the epoch of a later call on a long-lived shuffler: anywhere in the range, or right at /
+// right before one of the configured enable epochs (both directions of every flag and max-nodes switch).
+func verifC13StepEpoch(rt *rapid.T, in *verifSHAInput) uint32 {
+	edges := []uint32{in.args.BalanceWaitingListsEnableEpoch, in.args.WaitingListFixEnableEpoch}
+	for _, cfg := range in.args.MaxNodesEnableConfig {
+		edges = append(edges, cfg.EpochEnable)
+	}
+	if rapid.Bool().Draw(rt, "stepAtEdge") {
+		e := edges[rapid.IntRange(0, len(edges)-1).Draw(rt, "stepEdge")]
+		if e > 0 && rapid.Bool().Draw(rt, "stepBeforeEdge") {
+			return e - 1
+		}
+		return e
+	}
+	return rapid.Uint32Range(0, 9).Draw(rt, "stepEpoch")
+}
 
 // verifC13Eval performs one evaluation on freshly built maps (shard keys inserted in the given order) with a
 // fresh shuffler instance.
@@ -26,7 +55,7 @@ func verifC13Eval(rt *rapid.T, c *kit.Case, in *verifSHAInput, order []uint32) s
 
 func TestVerifC13_Deterministic(t *testing.T) {
 	kit.Run(t, "C13", kit.Budget{Quick: 4000, Thorough: 40000},
-		fmt.Sprintf("SG input (see C12); UpdateNodeLists is evaluated %d times, each on freshly built maps whose shard keys are inserted in a drawn permutation (eligible in that order, waiting in the reverse order) and with a fresh shuffler; additionally one shuffler instance is reused for two calls; all results must be equal including the order inside every list, Leaving and StillRemaining (or the same error); non-trivial = >=3 shards + meta, leaving validators in >=2 shards, new nodes present; distinct by (sizes, flags, leaving shape)", verifC13Repeats),
+		fmt.Sprintf("SG input (see C12); UpdateNodeLists is evaluated %d times, each on freshly built maps whose shard keys are inserted in a drawn permutation (eligible in that order, waiting in the reverse order) and with a fresh shuffler; additionally one long-lived shuffler instance serves 2-5 calls (the same input twice, then the same validators with drawn epochs - biased to the enable epochs and the epoch before them, ascending or descending - and fresh randomness), each compared with a fresh shuffler given the same input; all results must be equal including the order inside every list, Leaving and StillRemaining (or the same error); non-trivial = >=3 shards + meta, leaving validators in >=2 shards, new nodes present; distinct by (sizes, flags, leaving shape)", verifC13Repeats),
 		func(rt *rapid.T, c *kit.Case) {
 			in := verifSHAGen(rt, verifSHAManyShards)
 			first := verifC13Eval(rt, c, in, nil)
@@ -37,17 +66,34 @@ func TestVerifC13_Deterministic(t *testing.T) {
 					c.Violation("C13:result-differs-between-evaluations", "evaluation 1 (ascending insertion) and evaluation %d (insertion order %v) of the same input differ:\n  first: %s\n  later: %s\n  input: %s", i+1, order, first, got, in.String())
 				}
 			}
-			// one instance used twice (the instance keeps the epoch flags between calls)
+			// one long-lived instance (a node keeps its shuffler for its whole life; the instance keeps the epoch flags
+			// and the active max-nodes configuration between calls) against fresh instances (a node that has just
+			// started): the same call twice, then calls for other epochs - later and earlier ones - and randomness
 			sh, err := in.shuffler()
 			if err != nil {
 				rt.Fatalf("fixture: %v", err)
 			}
-			for i := 0; i < 2; i++ {
-				var res *ResUpdateNodes
-				c.NoPanic("C13:update-node-lists-panic", func() { res, err = sh.UpdateNodeLists(in.build(nil)) })
-				if got := verifSHAView(res, err).canon(); got != first {
-					c.Violation("C13:result-differs-between-evaluations", "call %d on a reused shuffler differs from a fresh one:\n  fresh: %s\n  reused: %s\n  input: %s", i+1, first, got, in.String())
+			history := []uint32{}
+			nSteps := rapid.IntRange(2, 5).Draw(rt, "nSteps")
+			wentBack := false
+			for i := 0; i < nSteps; i++ {
+				step, want := in, first
+				if i >= 2 {
+					step = verifC13At(in, verifC13StepEpoch(rt, in), rapid.SliceOfN(rapid.Byte(), 1, 32).Draw(rt, "stepRand"))
+					want = verifC13Eval(rt, c, step, nil)
 				}
+				if len(history) > 0 && step.epoch < history[len(history)-1] {
+					wentBack = true
+				}
+				history = append(history, step.epoch)
+				var res *ResUpdateNodes
+				c.NoPanic("C13:update-node-lists-panic", func() { res, err = sh.UpdateNodeLists(step.build(nil)) })
+				if got := verifSHAView(res, err).canon(); got != want {
+					c.Violation("C13:result-depends-on-earlier-calls", "call %d on a long-lived shuffler (epochs of its calls so far: %v) differs from a fresh shuffler given the same input:\n  fresh: %s\n  long-lived: %s\n  input: %s", i+1, history, want, got, step.String())
+				}
+			}
+			if wentBack {
+				c.Class("long-lived-instance-sees-an-earlier-epoch")
 			}
 			if len(first) > 6 && first[:6] == "error:" {
 				c.Class("rejected:shard-below-minimum")
@@ -78,6 +124,182 @@ func TestVerifC13_Deterministic(t *testing.T) {
 				c.Sample("%s => %s", in.String(), first)
 			}
 		})
+}
+
+const verifC13Nodes = 3
+
+// verifC13Config renders the configuration a coordinator holds for an epoch: per shard (ascending) the eligible,
+// waiting and leaving lists in order. ok=false: no configuration for the epoch.
+func verifC13Config(nc NodesCoordinator, epoch uint32) (canon string, eligible, waiting map[uint32][]string, ok bool) {
+	eligible, waiting, ok = verifSHBReadCfg(nc, epoch)
+	if !ok {
+		return "no configuration", nil, nil, false
+	}
+	leaving, okL := verifSHBReadLeaving(nc, epoch)
+	if !okL {
+		return "no configuration", nil, nil, false
+	}
+	return verifSHBDescribeCfg(eligible, waiting, leaving), eligible, waiting, true
+}
+
+// Coordinator level: the lists handed to the shuffler are assembled by the nodes coordinator from the validator
+// information of the epoch start block (maps per shard, leaving lists flattened from maps). Several freshly built
+// nodes process the same epoch start blocks; their configurations for every new epoch must be identical.
+func TestVerifC13_CoordinatorDeterministic(t *testing.T) {
+	kit.Run(t, "C13", kit.Budget{Quick: 1500, Thorough: 15000},
+		fmt.Sprintf("the multi-epoch fixture of C16 (1-3 shards + meta, min nodes 1..4, with/without rater, intra/cross-shard distributor, validator info derived from the current configuration with leaving (rates 0-90%%, so the removal caps bind) / jailed / new / low-rated entries); %d freshly built coordinators (own shuffler each, different own keys, genesis maps built by ranging over a map) process the same 1-3 epoch start blocks (EpochStartPrepare + EpochStartAction; each node unmarshals its own body); after every block the eligible, waiting and leaving lists per shard of the new epoch, including the order inside every list, must be equal on all nodes (or the epoch refused by all); non-trivial = an epoch change with known leaving validators in >=2 shards (metachain included), at least one of them refused or capped (more leaving than may leave), distinct by the whole history", verifC13Nodes),
+		func(rt *rapid.T, c *kit.Case) {
+			keys := &verifSHBKeyGen{long: rapid.IntRange(0, 3).Draw(rt, "longKeys") == 0}
+			s := verifSHBGenSetup(rt, keys)
+			selfKeys := []string{s.selfPK, "observer-B", s.initialKeys[len(s.initialKeys)-1]}
+			nodes := make([]*verifSHBCoord, verifC13Nodes)
+			for i := range nodes {
+				co, err := s.Build(selfKeys[i%len(selfKeys)], 0, s.rater)
+				if err != nil {
+					rt.Fatalf("fixture: %v (%s)", err, s)
+				}
+				nodes[i] = co
+			}
+			marsh := &marshal.GogoProtoMarshalizer{}
+			var history []string
+			ctx := func() string { return s.String() + "\n" + strings.Join(history, "\n") }
+
+			first, eligible, waiting, ok := verifC13Config(nodes[0].NC(), s.e0)
+			if !ok {
+				rt.Fatalf("fixture: initial epoch has no configuration")
+			}
+			history = append(history, fmt.Sprintf("epoch %d: %s", s.e0, first))
+			prevLeaving := map[string]bool{}
+			everPlaced := map[string]bool{}
+			cur := s.e0
+			nEpochs := rapid.IntRange(1, 3).Draw(rt, "nEpochs")
+			for k := 0; k < nEpochs; k++ {
+				gone := verifSHBGone(eligible, waiting, everPlaced)
+				infos, _ := verifSHBGenInfos(rt, s, keys, eligible, waiting, prevLeaving, gone)
+				placed := map[string]bool{}
+				for _, m := range []map[uint32][]string{eligible, waiting} {
+					for _, l := range m {
+						for _, pk := range l {
+							placed[pk] = true
+						}
+					}
+				}
+				prevLeaving = map[string]bool{}
+				leavingShards := map[uint32]int{}
+				for _, in := range infos {
+					if in.List == string(core.LeavingList) {
+						prevLeaving[in.PK] = true
+						if placed[in.PK] {
+							leavingShards[in.Shard]++
+						}
+					}
+				}
+				seed := rapid.SliceOfN(rapid.Byte(), 1, 32).Draw(rt, "prevRandSeed")
+				history = append(history, fmt.Sprintf("validator info for epoch %d (rand %x): %s", cur+1, seed, verifSHBDescribeInfos(infos)))
+				for _, n := range nodes {
+					body, err := verifSHBBody(infos, marsh)
+					if err != nil {
+						rt.Fatalf("fixture: %v", err)
+					}
+					hdr := verifSHBEpochStartHeader(cur+1, append([]byte{}, seed...))
+					c.NoPanic("C13:epoch-start-prepare-panic", func() {
+						n.Base.EpochStartPrepare(hdr, body)
+						n.Base.EpochStartAction(hdr)
+					})
+				}
+				var okFirst bool
+				first, eligible, waiting, okFirst = verifC13Config(nodes[0].NC(), cur+1)
+				for i := 1; i < len(nodes); i++ {
+					got, _, _, _ := verifC13Config(nodes[i].NC(), cur+1)
+					if got != first {
+						c.Violation("C13:coordinator-config-differs", "nodes 1 and %d hold different configurations for epoch %d after the same epoch start block:\n  node 1: %s\n  node %d: %s\n%s", i+1, cur+1, first, i+1, got, ctx())
+					}
+				}
+				if !okFirst {
+					// the shuffler (too few nodes) or the coordinator (eligible list below the group size) refused
+					c.Class("coordinator:epoch-refused")
+					return
+				}
+				c.Class("coordinator:epoch-ok")
+				history = append(history, fmt.Sprintf("epoch %d: %s", cur+1, first))
+				cur++
+				// leaving validators that are still placed in the new epoch: the removal caps were binding
+				stillPlaced := 0
+				for _, m := range []map[uint32][]string{eligible, waiting} {
+					for _, l := range m {
+						for _, pk := range l {
+							if prevLeaving[pk] {
+								stillPlaced++
+							}
+						}
+					}
+				}
+				if len(leavingShards) >= 2 {
+					c.Class("coordinator:leaving-in->=2-shards")
+				}
+				if stillPlaced > 0 {
+					c.Class("coordinator:binding-removal-cap")
+				}
+				if len(leavingShards) >= 2 && stillPlaced > 0 {
+					c.NonTrivial(ctx())
+					c.Sample("%s", ctx())
+				}
+			}
+		})
+}
+
+// Fixed coordinator history (runs in every tier): 2 shards + meta, 4 eligible + 1 waiting per shard with minimum 4,
+// two eligible validators of every shard ask to leave, so exactly one per shard may; 24 freshly built nodes.
+func TestVerifC13_CoordinatorRegress(t *testing.T) {
+	kit.Silence()
+	marsh := &marshal.GogoProtoMarshalizer{}
+	for _, fixEp := range []uint32{0, 1000} {
+		keys := &verifSHBKeyGen{}
+		s := &verifSHBSetup{
+			nbShards: 2, nodesShard: 4, nodesMeta: 4, gS: 2, gM: 2, hysteresis: 0, crossShard: true,
+			balanceEp: 0, fixEp: fixEp, e0: 0, threshold: 5,
+			chance:   &verifSHBChance{Table: []uint32{2, 0, 0, 0, 0, 2, 3, 4}, Top: 10},
+			eligible: map[uint32][]verifSHBVal{}, waiting: map[uint32][]verifSHBVal{},
+		}
+		var infos []verifSHBInfo
+		for _, sh := range verifSHBShardIDs(2) {
+			for i := 0; i < 4; i++ {
+				pk := keys.New()
+				s.eligible[sh] = append(s.eligible[sh], verifSHBVal{PK: pk, Chances: 10, Index: uint32(i)})
+				list := string(core.EligibleList)
+				if i < 2 {
+					list = string(core.LeavingList)
+				}
+				infos = append(infos, verifSHBInfo{PK: pk, Shard: sh, List: list, Index: uint32(i), TempRating: 20})
+			}
+			pk := keys.New()
+			s.waiting[sh] = append(s.waiting[sh], verifSHBVal{PK: pk, Chances: 10})
+			infos = append(infos, verifSHBInfo{PK: pk, Shard: sh, List: string(core.WaitingList), TempRating: 20})
+		}
+		sort.SliceStable(infos, func(i, j int) bool { return infos[i].PK < infos[j].PK })
+		first := ""
+		for rep := 0; rep < 24; rep++ {
+			co, err := s.Build("observer", 0, false)
+			if err != nil {
+				t.Fatalf("fixture: %v", err)
+			}
+			body, err := verifSHBBody(infos, marsh)
+			if err != nil {
+				t.Fatalf("fixture: %v", err)
+			}
+			hdr := verifSHBEpochStartHeader(1, []byte("rand-1"))
+			co.Base.EpochStartPrepare(hdr, body)
+			got, _, _, ok := verifC13Config(co.NC(), 1)
+			if !ok {
+				t.Fatalf("fixture: epoch 1 refused (fix epoch %d)", fixEp)
+			}
+			if rep == 0 {
+				first = got
+			} else if got != first {
+				kit.FailPlain(t, "C13", "C13:coordinator-config-differs", "fixed history (waiting list fix epoch %d): node %d differs:\n  first: %s\n  later: %s\n%s", fixEp, rep+1, first, got, verifSHBDescribeInfos(infos))
+			}
+		}
+	}
 }
 
 // Regression table: fixed inputs evaluated 60 times with rotating insertion orders.
